@@ -36,6 +36,25 @@ where
         Self::scale_playback_hz(source, interpolator, source_hz / target_hz)
     }
 
+    /// Verification hook: construct a `Converter` from an explicit internal state.
+    #[cfg(rustaudio_dasp_verif)]
+    #[doc(hidden)]
+    pub fn verif_from_state(source: S, interpolator: I, interpolation_value: f64, ratio: f64) -> Self {
+        Converter {
+            source,
+            interpolator,
+            interpolation_value,
+            source_to_target_ratio: ratio,
+        }
+    }
+
+    /// Verification hook: the (interpolation value, source-to-target ratio) state and the interpolator.
+    #[cfg(rustaudio_dasp_verif)]
+    #[doc(hidden)]
+    pub fn verif_state(&self) -> (f64, f64, &I) {
+        (self.interpolation_value, self.source_to_target_ratio, &self.interpolator)
+    }
+
     /// Construct a new `Converter` from the source frames and the amount by which the current
     /// ***playback*** **rate** (not sample rate) should be multiplied to reach the new playback
     /// rate.
